@@ -179,7 +179,10 @@ class Integrate:
             curve_vals = tuple(piece.eval(node) for node in nodes)
             function_vals = tuple(function(node) for node in nodes)
             new_integral = sum(
-                map(np.prod, zip(integ_array, function_vals, curve_vals))
+                weight * funcval * curveval
+                for weight, funcval, curveval in zip(
+                    integ_array, function_vals, curve_vals
+                )
             )
             integrals.append((end - start) * new_integral)
         return sum(integrals)
